@@ -7,7 +7,7 @@ from symx.check import Check, collect_functions
 from symx.load import repo
 
 STMT_FORMS = [
-    "x = 1\n", "# c\nx = 1\n", "\n\ny = 2\n", "$X = 'a'\n", "del $X\n", "$(ls -l)\n", "![echo hi > f]\n", "x = !(cmd a b)\n", "echo hi\n", "ls -la | grep x\n", "f!(a b, c)\n", "g!()\n", "$(echo! raw  text )\n",
+    "x = pf'/a{b}'\n", "open(pf'/tmp/{n}')\n", "x = p'/a/' pf'{b}'\n", "$(echo!)\n", "r = ![timeit!]\n", "$(echo -n!)\n", "x = 1\n", "# c\nx = 1\n", "\n\ny = 2\n", "$X = 'a'\n", "del $X\n", "$(ls -l)\n", "![echo hi > f]\n", "x = !(cmd a b)\n", "echo hi\n", "ls -la | grep x\n", "f!(a b, c)\n", "g!()\n", "$(echo! raw  text )\n",
     "with! ctx:\n    body line\n    more\n", "with! ctx as c: one liner\n", "with! ctx:\n    a\n\n    b\n", "p = p'/tmp' / 'x'\n", "q = pf'{x}/y'\n", "x?\n", "y??\n", "a && b\n", "a || b\n",
     "if x:\n    $(ls)\nelse:\n    pass\n", "def f():\n    return $(pwd)\n", "for $I in y:\n    pass\n", "with open(f) as $F:\n    pass\n", "z = `.*`\n", "s = f'{a}' 'b'\n",
     "t = '''a\nb'''\n", "u = (1,\n     2)\n", "v = 1; w = 2\n", "# only a comment\n", "\n", "class A:\n    x = 1\n", "try:\n    a\nexcept E:\n    b\n", "@dec\ndef g(): pass\n",
@@ -120,7 +120,7 @@ def main():
     forms = list(dict.fromkeys(STMT_FORMS + [s for s in xs if len(s) < 60]))
     pyf = [s for s in py if len(s) < 80]
     # k=0: all ordered pairs of statement forms (symbolic index only)
-    FOLLOW = ["x = 1\n", "# c\nx = 1\n", "\n\ny = 2\n", "$(ls)\n", "with! c:\n    d\n", "f!(a, b)\n", "  \nz\n"]
+    FOLLOW = ["mode = 'w'\n", "ls = $(ls -l)\n", "msg = f'{d}'\n", "x = 1\n", "# c\nx = 1\n", "\n\ny = 2\n", "$(ls)\n", "with! c:\n    d\n", "f!(a, b)\n", "  \nz\n"]
     A = forms if not chk.quick else list(dict.fromkeys(STMT_FORMS + seeds.sample(chk.rng, forms, 10)))
     Bs = (forms + seeds.sample(chk.rng, pyf, 20)) if not chk.quick else FOLLOW + seeds.sample(chk.rng, forms, 4) + seeds.sample(chk.rng, pyf, 2)
     pairs0 = [(a, b, None) for a in A for b in Bs]
